@@ -1,6 +1,7 @@
 package main
 
 import (
+	"strconv"
 	"fmt"
 	"sort"
 	"strings"
@@ -887,8 +888,7 @@ func sqlLiterals(cfg *config, id *int) {
 	ints := []string{"0", "1", "7", "42", "255", "256", "65535", "65536", "2147483647", "2147483648", "4294967295", "4294967296",
 		"9223372036854775807", "007", "00", "010", "0100", "08", "09", "0089", "000755", "02134"}
 	for _, n := range ints {
-		var v int64
-		fmt.Sscan(n, &v)
+		v, _ := strconv.ParseInt(n, 10, 64) // SQL integer literals are decimal whatever their leading zeros
 		*id++
 		sqlTextCase(cfg, *id, "INSERT INTO t VALUES ("+n+")", fmt.Sprintf("(insert 74 (cols ) (row (int %d)))", v), "literal")
 	}
